@@ -119,6 +119,7 @@ def enumerate_cases(tier):
     # sorted axes that touch in exactly one label; a single (falsy) label next to longer axes
     combos += [([0, 1, 2], [2, 3, 4]), ([2, 3, 4], [0, 1, 2]), ([4, 3, 2], [2, 1, 0]), (["a", "b", "c"], ["c", "d", "e"]), ([0.5, 1.5], [1.5, 2.5, 3.5]), ([1, 2], [2]), ([2], [1, 2]),
                ([0.5, 1.5, 2.5], [0.5, 1.5000045, 2.5]), ([300.0, 301.0], [300.0006, 301.0]), ([2000.01, 2000.02], [2000.01, 2000.03]),
+               ([0, 1, 2, 3], [0, 2, 1, 3]), ([0, 2, 1, 3], [0, 1, 2, 3]), ([10, 12, 11, 13], [13, 12, 11, 10]), ([5, 7, 6, 8], [5, 6, 7, 8, 9]),
                ([3, 1, 2], [0]), ([1, 2, 3], [0]), ([0], [1, 2, 3]), ([1.5, 2.5], [0.0]), (["c", "a"], [""]), ([""], ["c", "a"]), ([7], [0]), ([0], [7])]
     # three-dimensional inputs: the FIRST secondary axis agrees, a later one differs (same size, other order / other labels) - and the other way round
     for func in ("stack", "concatenate"):
